@@ -557,6 +557,11 @@ fn handle(line: &str) -> R {
             let mut outs: Vec<String> = vec![];
             for op in a[3].split('|') {
                 let p: Vec<&str> = op.split(',').collect();
+                if p[0] == "s" {
+                    // s,<value>: place the salt counter through the verification hook of /repo (--cfg gufo_snmp_verif)
+                    /*SALT_HOOK*/
+                    continue;
+                }
                 if p[0] == "e" {
                     let ctx = unhex(p[1]);
                     let spdu = ScopedPdu { engine_id: &ctx, pdu: build_pdu(p[2]) };
